@@ -32,6 +32,8 @@ type reqServer struct {
 	mu     sync.Mutex
 	seen   []reqRec
 	closed chan int
+	keep   bool     // requests travel on one long-lived connection (re-dialled when the server closes it) instead of one each
+	conn   *lx.Conn // ... that connection
 }
 
 func newReqServer(sym *reqSym, sopts ...gldap.Option) (*reqServer, error) {
@@ -57,6 +59,7 @@ func newReqServer(sym *reqSym, sopts ...gldap.Option) (*reqServer, error) {
 	}
 	mux, _ := gldap.NewMux()
 	_ = mux.Bind(record(""))
+	_ = mux.Search(record(""), gldap.WithBaseDN("ou=people,dc=example,dc=org"), gldap.WithLabel("people"))
 	_ = mux.Search(record(""))
 	_ = mux.Modify(record(""))
 	_ = mux.Add(record(""))
@@ -87,10 +90,13 @@ func (rs *reqServer) take() []reqRec {
 
 // exchange sends one frame on a fresh connection and waits for the final answer or the close
 func (rs *reqServer) exchange(sym *reqSym, frame []byte) (seen []reqRec, answered, closed bool, respID int64, err error) {
-	c, err := lx.Dial(rs.srv.Addr, 5*time.Second)
-	if err != nil {
-		return nil, false, false, 0, err
+	c := rs.conn
+	if c == nil {
+		if c, err = lx.Dial(rs.srv.Addr, 5*time.Second); err != nil {
+			return nil, false, false, 0, err
+		}
 	}
+	rs.conn = nil
 	if err := c.SendRaw(frame); err != nil {
 		c.Close()
 		return nil, false, false, 0, err
@@ -105,6 +111,11 @@ func (rs *reqServer) exchange(sym *reqSym, frame []byte) (seen []reqRec, answere
 		} else {
 			closed = true
 		}
+	}
+	if rs.keep && answered {
+		// the handler recorded what it saw before it wrote its answer: the connection stays open for the next request
+		rs.conn = c
+		return rs.take(), answered, closed, respID, nil
 	}
 	c.Close()
 	select {
@@ -142,6 +153,9 @@ func C01(args []string) error {
 	errs := make([]error, *par)
 	hx.Parallel(*par, *par, func(w int) {
 		rs, err := newReqServer(sym, gldap.WithLogger(hx.LoggerFor(w))) // every other server logs at debug level
+		if err == nil {
+			rs.keep = (w/2)%2 == 1 // half of the workers send all their requests on one long-lived connection
+		}
 		if err != nil {
 			errs[w] = err
 			return
